@@ -18,14 +18,14 @@ use std::io::Write;
 pub const META_C16: Meta = Meta {
     id: "C16",
     level: "exploration",
-    rule: "Exhaustive: every list of 1-3 elements over codings {gzip, identity, *, br, deflate, x-gzip} (thorough: also every list of 4 elements over {gzip, identity, *, br}) x weights {none, 0, 0., 0.0, 0.000, 0.001, 0.009, 0.01, 0.05, 0.1, 0.5, 0.999, 1, 1., 1.000} (one-, two- and three-decimal spellings whose order a scaling error would change), rendered with a rotating set of optional-whitespace patterns (none, spaces, tabs, and runs mixing both in either order) around ',' and ';'; every pair of the 1001 qvalues for gzip vs identity (and adjacent pairs with *); absent and empty header; empty and whitespace-only list elements in every slot (ignored, RFC 7230 section 7); a deciding element after k in {0..100} irrelevant elements, with and without an earlier relevant element (position independence); proptest for lists of up to 40 elements and random whitespace; arbitrary HeaderValue bytes for the no-panic clause. Oracle: independent evaluator in thousandths (gzip's quality else *'s else unacceptable; identity's else *'s else least-preferred acceptable; gzip > 0 and gzip >= identity); a coding listed twice admits the answers of either occurrence. Non-trivial = at least two of {gzip, identity, *} occur, at least one with a weight; distinct by header value.",
+    rule: "Exhaustive: every list of 1-3 elements over codings {gzip, identity, *, br, deflate, x-gzip} (thorough: also every list of 4 elements over {gzip, identity, *, br}) x weights {none, 0, 0., 0.0, 0.000, 0.001, 0.009, 0.01, 0.05, 0.1, 0.5, 0.999, 1, 1., 1.000} (one-, two- and three-decimal spellings whose order a scaling error would change), rendered with a rotating set of optional-whitespace patterns (none, spaces, tabs, and runs mixing both in either order) around ',' and ';'; every pair of the 1001 qvalues for gzip vs identity (and adjacent pairs with *); absent and empty header; look-alike coding names (gzipx, identity2, identity-legacy, **, ...) beside the real ones; empty and whitespace-only list elements in every slot (ignored, RFC 7230 section 7); a deciding element after k in {0..100} irrelevant elements, with and without an earlier relevant element (position independence); proptest for lists of up to 40 elements and random whitespace; arbitrary HeaderValue bytes for the no-panic clause. Oracle: independent evaluator in thousandths (gzip's quality else *'s else unacceptable; identity's else *'s else least-preferred acceptable; gzip > 0 and gzip >= identity); a coding listed twice admits the answers of either occurrence. Non-trivial = at least two of {gzip, identity, *} occur, at least one with a weight; distinct by header value.",
     assumptions: &["codings and 'q' are lower case, as in the statement's domain", "a coding listed more than once: any answer consistent with one choice of occurrence is accepted"],
 };
 
 pub const META_C17: Meta = Meta {
     id: "C17",
     level: "exploration",
-    rule: "Cases: Accept-Encoding from the C16 generators (and absent, and arbitrary bytes) x gzip level 0..=9 x chunk size {1,16,4096} x method {GET, HEAD, POST} x request given as Request and as Parts x request version {0.9, 1.0, 1.1, 2, 3} x the header given as one, two or three field lines x {no earlier body, an earlier body on the same thread whose response was dropped with unflushed bytes / whose writer was aborted / that completed} x builder call histories (earlier with_gzip_level calls overridden by the last one, with_chunk_size before or after) x small payloads of four classes. Oracle: Vary lists accept-encoding; Content-Encoding: gzip present iff should_gzip(headers) and level > 0 (the crate's own function, and on grammatical values also the C16 reference); no other Content-Encoding; after writing and dropping the writer the body is one gzip member decoding to the payload iff the header says gzip, otherwise the payload verbatim; Request and Parts agree; every non-HEAD method gets a writer. Non-trivial = weighted Accept-Encoding, or level 0 with gzip preferred; distinct by fingerprint of case.",
+    rule: "Cases: Accept-Encoding from the C16 generators (and absent, and arbitrary bytes) x gzip level 0..=9 x chunk size {1,16,4096} x method {GET, HEAD, POST and eight more incl. CONNECT and extension tokens} x request given as Request and as Parts x request version {0.9, 1.0, 1.1, 2, 3} x the header given as one, two or three field lines x {no earlier body, an earlier body on the same thread whose response was dropped with unflushed bytes / whose writer was aborted / that completed} x builder call histories (earlier with_gzip_level calls overridden by the last one, with_chunk_size before or after) x small payloads of four classes. Oracle: Vary lists accept-encoding; Content-Encoding: gzip present iff should_gzip(headers) and level > 0 (the crate's own function, and on grammatical values also the C16 reference); no other Content-Encoding; after writing and dropping the writer the body is one gzip member decoding to the payload iff the header says gzip, otherwise the payload verbatim; Request and Parts agree; every non-HEAD method gets a writer. Non-trivial = weighted Accept-Encoding, or level 0 with gzip preferred; distinct by fingerprint of case.",
     assumptions: &["gzip level within the documented 0..=9"],
 };
 
@@ -358,6 +358,32 @@ pub fn run_c16(cx: &Cx) -> Acc {
             }
         }
     }));
+    // Coding *names* that resemble the three that matter (prefixes, extensions, doubled stars): they
+    // are other codings and must not count as gzip / identity / *.
+    let near: Vec<&str> = vec!["gzipx", "gzip2", "gzi", "xgzip", "identity2", "identityx", "identity-legacy", "identit", "x-identity", "**", "*gzip", "gzip*"];
+    acc.merge(par_units(cx, "near-name-codings", &near, true, "every list of 2-3 elements in which a look-alike coding name (with weights none / 0 / 0.1 / 1) stands before, between or after gzip / identity / * elements", |cx, name, acc| {
+        let relevant: Vec<(usize, usize)> = (0..3).flat_map(|c| [0usize, 1, 9, 10, 12].into_iter().filter(|w| *w < WEIGHTS.len()).map(move |w| (c, w))).collect();
+        for q in ["", ";q=0", ";q=0.1", ";q=1"] {
+            let look = format!("{name}{q}");
+            for a in &relevant {
+                let x = render(&[*a], 0);
+                for v in [format!("{x}, {look}"), format!("{look}, {x}")] {
+                    let v = Some(Bs::s(&v));
+                    acc.run_case(cx, "near-name-codings", &v, |acc| check_c16(&v, acc));
+                }
+                for b in &relevant {
+                    if a.0 == b.0 {
+                        continue;
+                    }
+                    let y = render(&[*b], 0);
+                    for v in [format!("{x}, {y}, {look}"), format!("{x}, {look}, {y}"), format!("{look}, {x}, {y}")] {
+                        let v = Some(Bs::s(&v));
+                        acc.run_case(cx, "near-name-codings", &v, |acc| check_c16(&v, acc));
+                    }
+                }
+            }
+        }
+    }));
     // Every whitespace pattern on every list of 1-2 elements (the exhaustive phase rotates them).
     let pats: Vec<usize> = (0..OWS_PATTERNS.len()).collect();
     acc.merge(par_units(cx, "all-whitespace-patterns", &pats, true, "every list of 1-2 elements over 6 codings x 15 weights under each optional-whitespace pattern", |cx, &pat, acc| {
@@ -681,7 +707,7 @@ fn c17_single_line_strategy() -> BoxedStrategy<Case17> {
         ae_strategy(),
         prop_oneof![2 => Just(0u32), 5 => 1u32..=9],
         proptest::sample::select(&[1usize, 16, 4096][..]),
-        proptest::sample::select(&["GET", "HEAD", "POST"][..]),
+        proptest::sample::select(&["GET", "HEAD", "POST", "GET", "HEAD", "POST", "PUT", "DELETE", "CONNECT", "OPTIONS", "TRACE", "PATCH", "PROPFIND", "X-CUSTOM"][..]),
         crate::props::stream::payload_strategy(),
         prop_oneof![30 => 0u32..40, 20 => 40u32..3000, 1 => 60_000u32..260_000],
         prop_oneof![3 => Just(vec![]), 2 => vec(0u32..=9, 1..=2)],
@@ -730,6 +756,13 @@ pub fn run_c17(cx: &Cx) -> Acc {
             version: 0,
                     };
                     acc.run_case(cx, "enumerated", &c, |acc| check_c17(&c, acc));
+                    // every other method behaves like POST (a writer, header and body in agreement)
+                    if chunk == 16 && method == "POST" {
+                        for m in ["PUT", "DELETE", "CONNECT", "OPTIONS", "TRACE", "PATCH", "PROPFIND", "X-CUSTOM"] {
+                            let c5 = Case17 { method: m.into(), ..c.clone() };
+                            acc.run_case(cx, "enumerated", &c5, |acc| check_c17(&c5, acc));
+                        }
+                    }
                     // the request's HTTP version plays no part
                     if chunk == 16 {
                         for version in 1..=4u8 {
